@@ -62,6 +62,13 @@ POINT_COQ = dict(lc="PtLc", la="PtLa", qe="PtQe", prep="PtPrep", send="PtSend", 
 _drivers = {}
 
 
+def gen_tag(prop):
+    """name of the generated Coq case files: one set per examined tree, so that checks of different trees running at
+    the same time do not overwrite each other's cases"""
+    import hashlib
+    return "%s_%s" % (prop, hashlib.sha1(common.REPO.encode()).hexdigest()[:6])
+
+
 def ydriver(cfg, n_peers):
     key = (tuple(cfg), n_peers)
     if key not in _drivers:
@@ -519,7 +526,7 @@ def run(ctx, res):
             for pt, _k in s["fired"]:
                 res.count("corr_inj_at_%s" % pt)
         res.note_case(json.dumps(case, sort_keys=True), any(s["recs"] for s in trace))
-    mism, errs = common.coq_run_cases("C06", "Model.Outgoing Model.Replication", "run_C06",
+    mism, errs = common.coq_run_cases(gen_tag("C06"), "Model.Outgoing Model.Replication", "run_C06",
                                       "(bool * tcfg * (list peer * list note) * list top)", coq_cases, shard=250)
     res.errors += errs
     res.traces_validated = len(coq_cases) - len(mism)
